@@ -182,6 +182,9 @@ func Yield()                         {}
 func WaitQuiescent()                 { time.Sleep(20 * time.Millisecond) }
 func MustFinish()                    {}
 func MayBlock()                      {}
+// GlobalWrites: number of stores to package-level variables of kit packages so far (engine only; natively 0)
+func GlobalWrites() int { return 0 }
+
 func ThreadsAlive() int              { return 0 }
 
 // ThreadsAliveIs: in the engine, exactly n other threads are not finished; natively unknown (true).
